@@ -159,7 +159,7 @@ pub const KNOWN_FOREIGN: &[&str] = &[
     "\x1b*0", "\x1b+0", "\x1b-0", "\x1b.0", "\x1b/0", "\x1b*B", "\x1bN", "\x1bO", "\u{8e}", "\u{8f}", // G2 / G3, single shifts
     "\x1b%G", "\x1b%@", "\x1b=", "\x1b>", "\x1bl", "\x1bm", "\x1bn", "\x1bo", "\x1b|", "\x1b}", "\x1b~", "\x1b 6", "\x1b F", "\x1b G", "\x1b#3", "\x1b#6",
     "\x1b]P0123456x\x07", "\x1b]R\x07", "\x1b]4;1;rgb:00/00/00\x07", "\x1b]10;?\x07", "\x1b]52;c;YWJj\x07", "\x1b]104\x07", "\x1b]112\x07", "\x1b]133;A\x07", "\x1b]1337;File=name=YQ==:AAAA\x07", "\x1b]777;notify;a;b\x07", "\x1b]9;4;1;50\x07", "\x1b]8;id=1;http://x\x1b\\",
-    "\x1bP$q\"p\x1b\\", "\x1bP+q544e\x1b\\", "\x1bP=1s\x1b\\", "\x1bP1000p\x1b\\", "\x1b_Ga=q,i=1;AAAA\x1b\\", "\x1b^pm\x1b\\", "\x1bXsos\x1b\\",
+    "\x1bP$q\"p\x1b\\", "\x1bP+q544e\x1b\\", "\x1bP=1s\x1b\\", "\x1bP=2s\x1b\\", "\u{90}2$t3/5\u{9c}", "\x1bP1000p\x1b\\", "\x1b_Ga=q,i=1;AAAA\x1b\\", "\x1b^pm\x1b\\", "\x1bXsos\x1b\\",
 ];
 
 /// The core of the save / alternate screen / resize interplay, small enough to go twice as
